@@ -162,19 +162,32 @@ def bmp_load_unit(ctx, src):
                        'bool* has_alpha_out, void** new_data_unique)',
             rules=bmp_load_rules() + [Rule(r'\bfseek\(f, ([^,;]*), SEEK_CUR\)', r'C06_fseek_cur(f, \1)', count=1, regex=True)],
             ret_zero='', loops=bmp_loops('bit_depth / 8', '3'), nloops=2)
+    # the two row loops carry the loop contracts; they are found by their headers (`for (int32_t y ...)` and the x loop nested in it), so that
+    # small constant-bound loops in front of them (e.g. a mask -> byte-offset search) do not shift the ordinals: those are unwound by cbmc
+    from vf import lex
+    _, lbody, _, _ = lex.find_def(src.text(CC), LOAD, 'Image::load')
+    _, bfbody, _, _ = lex.find_block(lbody, BF_INTRO, 'BI_BITFIELDS block')
+    bfm = lex.mask(bfbody)
+    heads = [bfm[max(0, pos - 160):pos] for _, pos in lex.find_loops(bfbody)]
+    rows = [k for k, h in enumerate(heads) if re.search(r'for \(int32_t y\b[^{};]*;[^{};]*;[^{};]*\)\s*$', h)]
+    if len(rows) != 1 or rows[0] + 1 >= len(heads):
+        raise ExtractionBreak('Image::load BI_BITFIELDS: cannot locate the row loop `for (int32_t y ...)` (found %r of %d loops)' % (rows, len(heads)))
+    bf_loops = bmp_loops('4', '4')
+    bf_loops = {rows[0] + 1: bf_loops[1], rows[0] + 2: bf_loops[2]}
     u.block(src, CC, LOAD, BF_INTRO,
             new_header='void Image_load_bmp_bitfields(FILE* f, uint16_t bit_depth, uint32_t bitmask_r, uint32_t bitmask_g, uint32_t bitmask_b, '
                        'uint32_t bitmask_a, int32_t w, int32_t h, bool reverse_row_order, bool* has_alpha_out, void** new_data_unique)',
             rules=bmp_load_rules() + [
-                Rule(r'\bheader\.info_header\.bitmask_([rgba])\b', r'bitmask_\1', count=4, regex=True),
+                Rule(r'\bheader\.info_header\.bitmask_([rgba])\b', r'bitmask_\1', count='+', regex=True),
                 # unordered_map<uint32_t, size_t> m({{k, v}, ...}); m.at(k)  ->  constant table + lookup stub (throws out_of_range)
-                Rule(r'unordered_map<uint32_t, size_t> offset_for_bitmask\((\{.*?\})\);', r'const C06_kv offset_for_bitmask[] = \1;', count=1, regex=True),
-                Rule(r'\boffset_for_bitmask\.at\(', 'C06_MAP_AT(offset_for_bitmask, ', count=4, regex=True),
+                Rule(r'unordered_map<uint32_t, size_t> offset_for_bitmask\((\{.*?\})\);', r'const C06_kv offset_for_bitmask[] = \1;', count=None, regex=True),
+                Rule(r'\boffset_for_bitmask\.at\(', 'C06_MAP_AT(offset_for_bitmask, ', count=None, regex=True),
                 # try { 4 lookups } catch (const out_of_range&) { throw runtime_error(..); }   (the inner throw is already lowered)
                 Rule(r'try\s*\{(.*?)\}\s*catch\s*\(const out_of_range&\)\s*\{(.*?)\}\s*\}',
-                     r'\1 if (verif_exc == EXC_out_of_range) { verif_exc = 0; \2 } }', count=1, regex=True),
+                     r'\1 if (verif_exc == EXC_out_of_range) { verif_exc = 0; \2 } }', count=None, regex=True),
             ],
-            ret_zero='', loops=bmp_loops('4', '4'), nloops=2)
+            ret_zero='', loops=bf_loops, nloops=len(heads))
+    u.bf_extra_loops = len(heads) - 2
     u.write()
     return u
 
@@ -386,7 +399,12 @@ def plan(ctx):
     groups += ppm_load_groups(ctx, dim)
     ub = bmp_load_unit(ctx, src)
     ctx.functions_under_contract += ub.functions
-    groups += bmp_load_groups(ctx, dim)
+    bg = bmp_load_groups(ctx, dim)
+    if getattr(ub, 'bf_extra_loops', 0):
+        for g in bg:
+            if 'BITFIELDS' in g.name:      # small constant-bound loops without a contract in the block: unwound by cbmc, with unwinding assertions
+                g.cbmc_flags = list(g.cbmc_flags) + ['--unwind', '8', '--unwinding-assertions']
+    groups += bg
     ubt = bmp_types_unit(ctx, src)
     ubs = bmp_save_unit(ctx, src)
     ctx.functions_under_contract += ubs.functions
